@@ -34,6 +34,18 @@ def main() -> None:
             runs = sum(1 for i, s in enumerate(stmts) if i == 0 or s[3] != stmts[i - 1][3])
             if au["graph_starts"] != runs:
                 net.fail("graph-runs", "graph starts differ from the number of maximal runs of equal graph names", inp, au["graph_starts"], runs)
+    # long runs of equal graph names must still travel under a single graph start
+    for run_lens in ([251, 2], [3, 600, 5], [1300]) if not net.quick else ([251, 2], [3, 300]):
+        stmts = []
+        for gi, n in enumerate(run_lens):
+            stmts += [(("iri", f"http://ex.org/s{i}"), ("iri", "http://ex.org/p"), ("lit", str(i), None, None), ("iri", f"http://ex.org/g{gi}")) for i in range(n)]
+        net.case(("runs", run_lens))
+        kind, data = guarded(lambda: serialize_generic(stmts, 3, make_options(3, (64, 32, 16), logical=2, frame_size=250)))
+        if kind == "ok":
+            au = decode_stream(data, True).audit
+            if au["graph_starts"] != len(run_lens):
+                net.fail("graph-runs", "consecutive quads with equal graph names do not travel under a single graph start", {"run_lengths": run_lens}, au["graph_starts"], len(run_lens))
     net.finish("bounded", "random statement lists (2..9, repeat probability 0.6), tables large (64/32/16) or minimal, 3 physical types",
                "each case = (physical type, preset, statement list); audit counters from the reference decoder must be 0")
-main()
+if __name__ == "__main__":
+    main()
